@@ -1081,6 +1081,106 @@ def r12_resume_ends_error_handling(ctx, rule="C05.R12"):
     ctx.require(rule, 6)
 
 
+def r13_resume_point_reaches_the_failing_code(ctx, rule="C05.R13"):
+    """`RESUME re-executes the failing statement`: the VM resumes at the nearest statement mark at or
+    before the failing instruction.  For every piece of code a construct template emits that can fail
+    at run time (a user expression, a conversion, a raised error), the nearest mark before it *in
+    emission order* must lead to it *in execution order*: if the code between that mark and the failing
+    instruction ends in an unconditional jump somewhere else (the mark after a THEN block is followed
+    by `jump end-if`; the ELSEIF condition is emitted after it), RESUME leaves the construct instead of
+    evaluating the condition again.  Walked over every emission path of the construct templates with
+    label names as terms (sympath, as C02.R6)."""
+    from .. import sympath
+    import json
+    import os
+    from ..core import VERIF
+    prog = ctx.prog
+    w = sympath.Walker(prog)
+    table = json.load(open(os.path.join(VERIF, "tables", "template_assumptions.json")))
+    w.nonempty = {(e["fn"], e["var"]) for e in table["nonempty"]}
+    roots = w.roots()
+    if len(roots) < 5:
+        raise CheckError("%s: construct templates not found: %s" % (rule, [r.name for r in roots]))
+    can_fail_push = ("Cast", "Throw", "FixLength", "Plus", "Minus", "Multiply", "Divide", "Modulo", "NegateA")
+    results = {}
+    n_paths = [0]
+    n_marks = [0]
+
+    def reach_from(tr, start):
+        labels = {}
+        for i, it in enumerate(tr):
+            if it.kind == "label":
+                labels.setdefault(it.key(), []).append(i)
+        seen, work = set(), [start]
+        while work:
+            i = work.pop()
+            if i in seen or i >= len(tr):
+                continue
+            seen.add(i)
+            it = tr[i]
+            if it.kind in ("jump", "jump_if_false"):
+                work.extend(labels.get(it.key(), ()))
+            if it.kind != "jump":
+                work.append(i + 1)
+        return seen
+
+    def on_path(root):
+        def f(st):
+            tr = st.trace
+            n_paths[0] += 1
+            n_marks[0] += sum(1 for it in tr if it.kind == "mark")
+            memo = {}
+            ordinal = {}
+            for i, it in enumerate(tr):
+                if it.kind != "emit":
+                    continue
+                fails = it.sub in ("EXPR", "USER") or (it.sub == "push" and any(
+                    it.name == ("s", "push(%s)" % x) for x in can_fail_push))
+                if not fails:
+                    continue
+                # the resume point: the nearest mark before it in emission order; a user block / statement
+                # carries marks of its own (that a mark follows it is C05.R2's business); with neither, the
+                # mark the statement dispatcher sets before the construct
+                j = i - 1
+                while j >= 0 and not (tr[j].kind == "mark" or (tr[j].kind == "emit" and tr[j].sub in ("BLOCK", "STMT"))):
+                    j -= 1
+                start = j + 1 if j >= 0 else 0
+                if start not in memo:
+                    memo[start] = reach_from(tr, start)
+                construct = common.generator_construct_of(prog, root)
+                k = (it.fn.name, it.line)
+                key = "%s:%s:%s:%s" % (rule, construct, it.fn.name, sympath.show(it.name).strip('"'))
+                r = results.setdefault((key, it.line), [0, None, "%s:%s" % (it.fn.file, it.line)])
+                if i in memo[start]:
+                    r[0] += 1
+                elif r[1] is None:
+                    what = "the mark emitted at line %s" % tr[j].line if j >= 0 and tr[j].kind == "mark" else \
+                        ("the end of the user code emitted at line %s" % tr[j].line if j >= 0 else "the start of the statement")
+                    r[1] = ("an error raised by the code emitted here (%s) is resumed at %s, but from there the emitted code "
+                            "never reaches it (an unconditional jump leads elsewhere): RESUME does not execute the failing "
+                            "part of the statement again, it leaves or re-enters the construct; when %s"
+                            % (sympath.show(it.name), what, "; ".join(st.facts.describe())[:300]))
+        return f
+
+    try:
+        for root in roots:
+            w.walk(root, None, on_path(root))
+    except sympath.Budget as e:
+        raise CheckError("%s: path budget exceeded (%s)" % (rule, e))
+    # keys must not depend on line numbers: sites of one function with the same text are numbered in source order
+    by_key = {}
+    for (key, line), v in results.items():
+        by_key.setdefault(key, []).append((line, v))
+    for key in sorted(by_key):
+        for n, (line, (okn, bad, loc)) in enumerate(sorted(by_key[key], key=lambda x: x[0])):
+            ctx.decide(bad is None, rule, key if n == 0 else "%s#%d" % (key, n), loc,
+                       "reached from its resume point on %d emission paths" % okn, bad or "")
+    if not n_marks[0]:
+        raise CheckError("%s: no statement mark seen in any template (the walk lost them)" % rule)
+    ctx.analysed_units(rule, templates=[r.name for r in roots], emission_paths=n_paths[0], marks_seen=n_marks[0])
+    ctx.require(rule, 15)
+
+
 def run(ctx):
     common.install(ctx)
     r1_error_codes(ctx)
@@ -1096,3 +1196,4 @@ def run(ctx):
     r10_no_handler_reentry(ctx)
     r11_resume_label_abandons_active_calls(ctx)
     r12_resume_ends_error_handling(ctx)
+    r13_resume_point_reaches_the_failing_code(ctx)
